@@ -23,7 +23,21 @@ class C17(Prop):
                    'ExtendedToStreamDecorator is only used after startTestRun (tags() on an unstarted one raises AttributeError: outside the domain)',
                    'of the stream pipeline only what PlaceHolder.run replays is modelled (no file chunking, no route codes, one test in progress per id)']
 
-    manifest = None   # set below once claimed
+    manifest = {
+        'text': 'Theorems for all adapter graphs (any depth / fan-out) and all call histories: current_tags of every result and adapter '
+                '(TestResult, TextTestResult, TestByTestResult, ExtendedToOriginalDecorator, TestResultDecorator, Tagger, MultiTestResult, '
+                'ThreadsafeForwardingResult, ExtendedToStreamDecorator) equals, after every call, the stack-of-sets semantics (startTestRun '
+                'empties, startTest pushes a copy, tags changes the top, stopTest pops but never the run level - D11), under which a '
+                'startTest..stopTest bracket restores the context; every wrapped result sees at each outcome exactly the reporter\'s current '
+                'tags (plus what Taggers above it add at startTest) through ThreadsafeForwardingResult (global/test buffers, _merge_tags lemma: '
+                'merging then applying = applying in sequence), MultiTestResult and the decorators, for all tag-well-formed histories incl. the '
+                'startTest-less addSkip+stopTest pair.  The hand-written model is tied to the code by a differential check.',
+        'note': 'partial: the observed-tags theorem excludes (a) graphs with a Tagger below a ThreadsafeForwardingResult / stream pipeline '
+                '(known finding taggerBelowBuffer) and (b) the ExtendedToStreamDecorator->StreamToExtendedDecorator->PlaceHolder path, which is '
+                'modelled and checked by the correspondence only; trusted: Lean kernel, model TTV/Model/Result.lean, harness; tag sets as bit sets',
+        'technique': 'Lean 4 proofs: refinement invariant over the adapter tree (state type computed from the shape) and the call history, '
+                     'bit-vector extensionality for tag sets; executable spec shared with a differential correspondence check',
+    }
 
     def run_impl(self, inp):
         shape, hist = inp
@@ -165,4 +179,3 @@ class C17(Prop):
 
 
 PROP = C17()
-del C17.manifest
